@@ -952,6 +952,25 @@ func (h *Hist) runHistory(scans int) (bool, string) {
 			return false, err.Error()
 		}
 		h.stats["outcome:"+outcome]++
+		if !h.scripted && outcome == "ok" && h.r.chance(20) {
+			// an operator reacts to a wave of removals: what is still marked gets cordoned before the next scan
+			removed := false
+			for _, e := range h.rec.Entries {
+				if m, ok := e.Call.(map[string]interface{}); ok {
+					_, t := m["terminateInAsg"]
+					_, d := m["deleteNode"]
+					removed = removed || t || d
+				}
+			}
+			if removed {
+				for _, n := range h.api {
+					if (n.hasTaint(escKey) || n.hasTaint(forceKey)) && h.r.chance(60) {
+						n.Unschedulable = true
+					}
+				}
+				h.stats["ev:cordon-after-removals"]++
+			}
+		}
 		if !h.scripted && outcome == "ok" && h.r.chance(30) {
 			// time moves on between scans (the events above move it too, but rarely by little)
 			h.shift([]time.Duration{time.Second, 2 * time.Second, 10 * time.Second, time.Minute, 5 * time.Minute}[h.r.intn(5)])
